@@ -16,13 +16,17 @@ ASSUMPTIONS = ["regular distribution: theorems are about the exact-arithmetic mo
 MS = 1000000
 
 
-def dist(kind, iv_ns, steps, rates, rands=()):
-    return "dist %s %d %d %s %s" % (kind, iv_ns, steps, ints(rates), ints(rands))
+def dist(kind, iv_ns, steps, rates, rands=(), gaps=()):
+    g = (" " + ",".join("%d:%d" % (i, e) for i, e in gaps)) if gaps else ""
+    return "dist %s %d %d %s %s%s" % (kind, iv_ns, steps, ints(rates), ints(rands), g)
 
 
 def corpus():
     return [
         dist("regular", 900 * MS, 18, [7, 3]),
+        dist("regular", 1000 * MS, 30, [7, 3, 9], (), [(4, 2500 * MS), (17, 1001 * MS)]),     # a tick 2.5 s late in the middle of a cycle
+        dist("random", 1000 * MS, 30, [7, 3, 9], [2, 1, 0, 3, 1, 0, 0, 2, 1, 1, 0, 0, 1, 2, 0, 0, 0, 0, 3, 1, 2, 1, 1, 0, 0, 1, 0, 0, 0, 0], [(4, 2500 * MS)]),
+        dist("random", 500 * MS, 25, [0, 7, 0, 0, 5], [3, 1, 2, 0, 1, 2, 0, 1, 1, 0]),         # zero-rate cycles still last N sub-ticks
         dist("regular", 1000 * MS, 40, [5, 15, 12, 8]),
         dist("regular", 215 * MS, 6, [1, 1, 1]),
         dist("random", 1000 * MS, 10, [28], [0, 1, 0, 0, 1, 0, 0, 0, 7]),
@@ -64,7 +68,11 @@ def generate(rng, tier):
                     rands.append(0)
                 else:
                     rands.append(rng.randint(0, 3 * max(1, rem)))   # beyond range: clamped
-        out.append(dist(kind, iv, steps, rates, rands))
+        gaps = ()
+        if rng.random() < 0.3:        # late ticks / pauses / a clock stepping back: cycles are counted in calls, not in wall-clock
+            gaps = sorted((rng.randint(0, max(0, steps - 1)), rng.choice([iv + 1, 3 * iv, 250 * MS, 60_000 * MS, -iv, -2 * iv]))
+                          for _ in range(rng.randint(1, 3)))
+        out.append(dist(kind, iv, steps, rates, rands, gaps))
     for _ in range(n // 6):
         iv = rng.choice([1, 50 * MS, 100 * MS, 100 * MS, 99 * MS, 100 * MS + 1, 101 * MS, 199 * MS, 200 * MS])
         out.append(dist(rng.choice(["none", "regular", "random"]), iv, rng.randint(1, 6),
